@@ -191,7 +191,7 @@ func (p *Program) buildCT() *CT {
 	}
 	info := ct.HIC.Info()
 	// LT: the Command() switch whose arms lock Server.mu
-	for _, ss := range stringSwitches(ct.HIC, func(e ast.Expr) bool { return isCommandCall(info, e) }) {
+	for _, ss := range stringSwitches(ct.HIC, func(e ast.Expr) bool { return p.isCommandTag(ct.HIC, e) }) {
 		locks := 0
 		ast.Inspect(ss.Stmt, func(n ast.Node) bool {
 			if c, ok := n.(*ast.CallExpr); ok && p.serverMuOp(info, c) != lkNone {
@@ -215,9 +215,8 @@ func (p *Program) buildCT() *CT {
 		ct.LTClass[c] = p.interpretLockArm(ct.HIC, ct.LT, c)
 	}
 	// DT: the Command() switch of command
-	cinfo := ct.Command.Info()
 	var best *strSwitch
-	for _, ss := range stringSwitches(ct.Command, func(e ast.Expr) bool { return isCommandCall(cinfo, e) }) {
+	for _, ss := range stringSwitches(ct.Command, func(e ast.Expr) bool { return p.isCommandTag(ct.Command, e) }) {
 		if best == nil || len(ss.Clauses) > len(best.Clauses) {
 			best = ss
 		}
